@@ -38,6 +38,13 @@ def configs(ctx):
                             p["nmatch"] = 0 if double else p["nmatch"]
                         p["fix_var"] = float(rng.choice([0.0, 1e-12]))
                         out.append(p)
+    # mirror of the front-only family: the splice lies upstream of ALL reference sections and a matching pair bridges it (single ended)
+    for rep in range(reps):
+        for fix in (None, "gamma", "dalpha"):
+            p = calib.random_params(rng, False, quick=True, nx=int(rng.integers(28, 40)), nta=1, noise=0.0, nt=int(rng.integers(1, 4)), nmatch=1, back_only=True,
+                                    span=float(rng.choice([10.0, 100.0, 400.0])), nbath=int(rng.integers(2, 4)))
+            p["fix"], p["fix_var"] = fix, 0.0
+            out.append(p)
     return out
 
 
